@@ -12,7 +12,9 @@ Record ecase := {
   k_cmds : list command; k_q : bytes; k_opts : options; k_nlp : nlp_info;
   k_obs : list eres;
   k_extra : list (string * list eres);
-  k_recased : bytes
+  k_recased : bytes;
+  k_nlp_keywords : list bytes;        (* ProcessQuery(...).Keywords: the keywords extracted from the user's own text *)
+  k_nlp_sig : list bytes; k_nlp_sig2 : list bytes   (* the whole analysis, flattened, from two analyses of the same text *)
 }.
 
 Definition env_of (c : ecase) : env :=
@@ -50,8 +52,9 @@ Definition mismatch (c : ecase) : option string :=
   match chk "nlp_off_big" (with_opts o (Some (big c)) (Some false) (Some false) false) (extra c "nlp_off_big") with Some s => Some s | None =>
   match chk "nlp_on_big" (with_opts o (Some (big c)) (Some false) (Some true) false) (extra c "nlp_on_big") with Some s => Some s | None =>
   match chk "boost_big" (with_opts o (Some (big c)) None None false) (extra c "boost_big") with Some s => Some s | None =>
-  chk "noboost_big" (with_opts o (Some (big c)) None None true) (extra c "noboost_big")
-  end end end end end end.
+  match chk "noboost_big" (with_opts o (Some (big c)) None None true) (extra c "noboost_big") with Some s => Some s | None =>
+  chk "cached_after_variants" o (extra c "cached_after_variants")
+  end end end end end end end.
 
 (* which path answered, according to the model *)
 Definition path_of (c : ecase) : string :=
@@ -98,7 +101,7 @@ Definition c01_check (c : ecase) : option string :=
       | Some r => tag name (c01_pred n (match lim with Some l => l | None => limit_in_force dflt o end) r)
       | None => None end in
   first_some [ tag (path_of c) (c01_pred n (limit_in_force 10%Z o) (k_obs c));
-               on "fuzzy_on" 10%Z None; on "fuzzy_off" 10%Z None; on "cached1" 10%Z None; on "cached2" 10%Z None;
+               on "fuzzy_on" 10%Z None; on "fuzzy_off" 10%Z None; on "cached1" 10%Z None; on "cached2" 10%Z None; on "cached_after_variants" 10%Z None;
                on "legacy_pipeline" 5%Z None; on "search" 10%Z None;
                on "nlp_on_big" 10%Z (Some (big c)); on "nlp_off_big" 10%Z (Some (big c)) ].
 
@@ -128,7 +131,7 @@ Definition c04_pred (c : ecase) (r : list eres) : option string :=
 
 Definition c04_check (c : ecase) : option string :=
   let on (name : string) := match extra c name with Some r => tag name (c04_pred c r) | None => None end in
-  first_some [ tag (path_of c) (c04_pred c (k_obs c)); on "fuzzy_on"; on "fuzzy_off"; on "cached1"; on "cached2";
+  first_some [ tag (path_of c) (c04_pred c (k_obs c)); on "fuzzy_on"; on "fuzzy_off"; on "cached1"; on "cached2"; on "cached_after_variants";
                on "nlp_on_big"; on "nlp_off_big"; on "boost_big" ].
 
 (* ---------------------------------------------------------------- C07 *)
@@ -181,13 +184,32 @@ Definition subset_ids (a b : list Z) : bool := forallb (fun x => existsb (Z.eqb 
 
 Definition content_words (c : ecase) : nat := List.length (dedup [] (tokenize (k_stop c) (k_q c))).
 
+Fixpoint nodup_bytes (l : list bytes) : bool :=
+  match l with [] => true | x :: r => negb (mem_bytes x r) && nodup_bytes r end.
+
+Fixpoint prefix_bytes (p l : list bytes) : bool :=
+  match p, l with
+  | [], _ => true
+  | x :: p', y :: l' => bytes_eqb x y && prefix_bytes p' l'
+  | _ :: _, [] => false
+  end.
+
+(* the analysis itself (ProcessQuery / GetEnhancedKeywords output for this query) *)
+Definition c06_analysis (c : ecase) : option string :=
+  let enh := n_enhanced (k_nlp c) in
+  if negb (prefix_bytes (dedup [] (k_nlp_keywords c)) enh) then Some "keywords_first"
+  else if negb (nodup_bytes enh) then Some "no_duplicates"
+  else if negb (list_eqb bytes_eqb (k_nlp_sig c) (k_nlp_sig2 c)) then Some "same_analysis_twice"
+  else None.
+
 Definition c06_check (c : ecase) : option string :=
+  match c06_analysis c with Some s => Some s | None =>
   match extra c "nlp_off_big", extra c "nlp_on_big" with
   | Some off, Some on =>
       if Nat.leb (content_words c) 10 && (o_terms_cap (k_opts c) <=? 0)%Z && negb (subset_ids (ids off) (ids on))
       then Some "superset" else None
   | _, _ => None
-  end.
+  end end.
 
 Definition score_of (r : list eres) (i : Z) : option float :=
   match find (fun x => Z.eqb (fst x) i) r with Some x => Some (snd x) | None => None end.
